@@ -10,11 +10,16 @@ dict (`attrSet` / `attrDel` / `attrClear`, attributes being model state: `C01_at
 by the model itself through C12's sort model (`Op.sort`, `C01_sort_step`, `Lemmas/KernelSort.lean`), and the
 composites `Tape.initializer` and `Builder.<Op>(…)`.  Which public members of /repo map to which operation is
 the table `API_TABLE` in `harness/kernel_ops.py`, compared with the introspected classes on every run.
+
+Round 4: `C01_sort_exact` / `C01_sort_accepted_iff` (an accepted sort leaves every graph of the nest with EXACTLY the
+entry C12's sort model returned; acceptance criterion), and `GraphView` (`Model/KernelView.lean`: views next to the
+kernel world; `C01_view_frame`, `C01_views_erasable`, `C01_history_views`).
 -/
 import IrVerif.Lemmas.KernelOps
 import IrVerif.Lemmas.KernelSeq
 import IrVerif.Lemmas.KernelFaithful
 import IrVerif.Lemmas.KernelSort
+import IrVerif.Model.KernelView
 namespace IrVerif.Kernel
 
 /-- the empty world is well formed -/
@@ -102,6 +107,64 @@ theorem C01_sort_step (w : World) (g : Nat) (hw : WF w) (ht : Sort.WF (treeOf w 
   · intro hn
     simp only [step, graphSort, hn]
 
+/-- **C01_sort_exact** (round 4; the stronger sort statement, until now only compared on every run): after an
+ACCEPTED `Graph.sort` / `Function.sort` — under the hypotheses of `C01_sort_step` — the sort model returned a list `r`
+with exactly one entry per graph of the nest (in the order `RecursiveGraphIterator` meets them), and afterwards the
+node sequence of every graph of the nest EQUALS its entry (not just some permutation the code supplied), every graph
+outside the nest keeps its node sequence, and every node names the graph it named before.  Composes `C12_perm` (each
+entry is a permutation of the graph's current sequence; distinct graph ids) with `C12_relink` (`extend` with a
+permutation of the present nodes leaves that permutation) and the frame of the re-linking loop (`sortApply_exact`:
+re-extending one graph touches no other graph's sequence and keeps the later entries acceptable). -/
+theorem C01_sort_exact (w : World) (g : Nat) (hw : WF w) (ht : Sort.WF (treeOf w g))
+    (hok : (step w (.sort g)).2 = .ok) :
+    ∃ r, Sort.sortModel (treeOf w g) = some r ∧
+      r.map Prod.fst = (Sort.allGraphs (treeOf w g)).map Prod.fst ∧
+      (∀ p ∈ r, ((step w (.sort g)).1.gr p.1).nodes = p.2) ∧
+      (∀ h, h ∉ r.map Prod.fst → ((step w (.sort g)).1.gr h).nodes = (w.gr h).nodes) ∧
+      (∀ n, ((step w (.sort g)).1.node n).graph = (w.node n).graph) := by
+  cases hr : Sort.sortModel (treeOf w g) with
+  | none =>
+    have := (C01_sort_step w g hw ht).2.2.2 hr
+    rw [this] at hok; cases hok
+  | some r =>
+    have hids := sortModel_graph_ids _ ht r hr
+    have hbad : sortBad w r = false := by
+      cases hb : sortBad w r with
+      | false => rfl
+      | true =>
+        simp only [step, graphSort, hr, guardOp, hb, if_true] at hok
+        cases hok
+    have hfst : (step w (.sort g)).1 = sortApply w r := by
+      simp only [step, graphSort, hr]
+      exact guardOp_fst _ _ _ _ hbad
+    have hall : ∀ p ∈ r, p.2.isPerm (w.gr p.1).nodes = true ∧ p.2.all (nodeAcceptable w p.1) = true := by
+      intro p hp
+      have := List.any_eq_false.1 hbad p hp
+      simpa using this
+    have hnd : (r.map Prod.fst).Nodup := by rw [hids]; exact ht.gids
+    obtain ⟨e1, e2, e3⟩ := sortApply_exact r w hw hnd (fun p hp => List.isPerm_iff.1 (hall p hp).1)
+      (fun p hp n hn => List.all_eq_true.1 (hall p hp).2 n hn)
+    rw [hfst]
+    exact ⟨r, rfl, hids, e1, e2, e3.graph⟩
+
+/-- **C01_sort_accepted_iff**: on a well-formed world `sort` is accepted exactly when the sort model returns an order
+(no cycle, no shared graph) and no node of the nest fails the naming probe — `C01_mutation_faithful` rules out the third
+way the model can raise (a check failing after a write). -/
+theorem C01_sort_accepted_iff (w : World) (g : Nat) (hw : WF w) :
+    (step w (.sort g)).2 = .ok ↔ ∃ r, Sort.sortModel (treeOf w g) = some r ∧ sortBad w r = false := by
+  have hl := C01_mutation_faithful w hw (.sort g)
+  cases hr : Sort.sortModel (treeOf w g) with
+  | none => simp [step, graphSort, hr]
+  | some r =>
+    simp only [step, graphSort, hr] at hl ⊢
+    cases hb : sortBad w r with
+    | true => simp [guardOp, hb]
+    | false =>
+      have h1 : (guardOp false "ValueError|AttributeError" w (sortApply w r)).1 = sortApply w r :=
+        guardOp_fst _ _ _ _ rfl
+      rw [hb, h1] at hl
+      simp [guardOp, hl, hb]
+
 /-! non-vacuity of `C01_sort_step` / `C01_attr_frame`: a child graph `g0 = [b, a]` (out of order) held by an
 attribute of `o ∈ g1`; `sort` on `g1` re-orders the child.  With the same graph held by two attributes the
 hypothesis fails (and the library raises). -/
@@ -120,6 +183,10 @@ example : Sort.WF (treeOf (run exSortHistory) 1) := ⟨by decide, by decide⟩
 example : Sort.sortModel (treeOf (run exSortHistory) 1) = some [(1, [2]), (0, [0, 1])] := by decide
 example : ((step (run exSortHistory) (.sort 1)).1.gr 0).nodes = [0, 1] ∧
     (step (run exSortHistory) (.sort 1)).2 = .ok := by decide
+/-- `C01_sort_exact` on the example: the accepted sort leaves every graph of the nest with exactly its entry -/
+example : (step (run exSortHistory) (.sort 1)).2 = .ok ∧
+    ((step (run exSortHistory) (.sort 1)).1.gr 1).nodes = [2] ∧
+    ((step (run exSortHistory) (.sort 1)).1.gr 0).nodes = [0, 1] := by decide
 /-- the hypothesis can fail: the child held by two attributes of the same node -/
 example : ¬ Sort.WF (treeOf (step (run exSortHistory) (.attrSet 2 "else" [0])).1 1) := fun h => by
   have := h.ids; revert this; decide
@@ -127,6 +194,45 @@ example : (step (step (run exSortHistory) (.attrSet 2 "else" [0])).1 (.sort 1)).
 /-- attribute edits do change the model state (they are not no-ops), only not what `WF` reads -/
 example : (step (run exSortHistory) (.attrDel 2 "then" true)).1 ≠ run exSortHistory ∧
     (step (run exSortHistory) (.attrDel 2 "zz" true)).2 = .raised "KeyError" := by decide
+
+/-! ### `GraphView` (round 4)
+
+A `GraphView` stores plain tuples and a plain dict (`Model/KernelView.lean`); the views live next to the kernel world.
+The model of a view operation is compared with the real `GraphView` on every run (content of the view, and the deep
+snapshot of every value / node / graph before vs after the call: `view-frame`). -/
+
+theorem viewStep_w (vw : VWorld) (op : ViewOp) : (viewStep vw op).1.w = vw.w := by
+  cases op <;> simp only [viewStep, onView] <;> (repeat' split) <;> rfl
+
+/-- **C01_view_frame**: creating a view (also a rejected creation), re-assigning its slots, editing its plain
+initializer dict and dropping it return the WHOLE kernel world they were given — no value, node or graph record, no
+reference counter, no name-authority state changes, a fortiori no field the invariant reads; conversely a kernel call
+returns the views it was given (a view lists object ids, it holds no copy of a record). -/
+theorem C01_view_frame (vw : VWorld) :
+    (∀ op : ViewOp, (vstep vw (.view op)).1.w = vw.w) ∧
+    (∀ op : AnyOp, (vstep vw (.kernel op)).1.views = vw.views ∧ (vstep vw (.kernel op)).1.w = (stepAny vw.w op).1 ∧
+      (vstep vw (.kernel op)).2 = (stepAny vw.w op).2) :=
+  ⟨fun op => viewStep_w vw op, fun _ => ⟨rfl, rfl, rfl⟩⟩
+
+/-- **C01_views_erasable**: the kernel world after a history in which view operations are interleaved with the
+editing calls is the kernel world of the same history with the view operations erased: no view operation, whatever
+its arguments and outcome, has any influence on the IR state — now or later. -/
+theorem C01_views_erasable (ops : List VOp) : (runV ops).w = runAny (kernelOps ops) := by
+  unfold runV runAny
+  suffices ∀ (s : VWorld) (w : World), s.w = w →
+      (ops.foldl (fun s o => (vstep s o).1) s).w = (kernelOps ops).foldl (fun w o => (stepAny w o).1) w from
+    this {} World.empty rfl
+  induction ops with
+  | nil => intro s w e; exact e
+  | cons o ops ih =>
+    intro s w e
+    cases o with
+    | kernel op => exact ih _ _ (by subst e; rfl)
+    | view op => exact ih _ _ (by rw [← e]; exact viewStep_w s op)
+
+/-- **C01_history_views**: the invariant holds after every finite history of editing calls and view operations -/
+theorem C01_history_views (ops : List VOp) : WF (runV ops).w := by
+  rw [C01_views_erasable]; exact C01_history _
 
 /-! ### what `WF` says, spelled out on the accessors (so that the statement can be read off) -/
 
@@ -261,5 +367,22 @@ example : (run exHistory).val 1 =
 example : ((run exHistory).gr 0).inputs = [1, 1] ∧ ((run exHistory).gr 0).inits = [("w", 1)] ∧
     ((run exHistory).gr 0).nodes = [0] := by decide
 example : (step (run exHistory) (.io 1 .inp (.append 1))).2 = .raised "ValueError" := by decide
+
+/-! non-vacuity of the `GraphView` theorems -/
+
+/-- non-vacuity: a view that lists `w` (an initializer and input of `g0`) as its OUTPUT and `x` (free) as input and
+initializer `"x"`; nothing about `w` / `x` changed, and the view's own dict takes any value under any key -/
+def exViewHistory : List VOp :=
+  exHistory.map (fun o => VOp.kernel (.one o)) ++
+    [ .kernel (.one (.newValue none)),                                      -- v4: no name
+      .view (.newView [0] [1] [0] [0]), .view (.initPut 0 "zz" 2), .view (.newView [] [] [] [4]) ]
+
+example : (runV exViewHistory).views =
+    [{ inputs := [0], outputs := [1], inits := [("x", 0), ("zz", 2)], nodes := [0] }] := by decide
+example : (runV exViewHistory).w = (step (run exHistory) (.newValue none)).1 := by decide
+example : ((runV exViewHistory).w.val 1).isOut = true ∧ ((runV exViewHistory).w.val 0).isIn = false ∧
+    ((runV exViewHistory).w.val 0).graph = none := by decide
+/-- an initializer without a name is refused (`ValueError`) -/
+example : (vstep (runV exViewHistory) (.view (.newView [] [] [] [4]))).2 = .raised "ValueError" := by decide
 
 end IrVerif.Kernel
